@@ -180,6 +180,17 @@ pub fn c11(ctx: &mut Ctx) {
         apply_tail(&mut v, last, idx % TAILS);
         c11_case(&v, l);
     });
+    // long chains: 7..130 mixed-size tiles x 12 tails (where a fixed-size cache or a capped up-front walk runs out)
+    {
+        let sp = super::bytes::long_chain_space();
+        let get = &sp.get;
+        ctx.bound("long chains", "chains of {7,8,9,15,16,17,18,31,32,33,34,63,65,130} well-formed tiles of mixed sizes (two size patterns) x 12 tail variants");
+        ctx.run_space(&sp.name, sp.len, |idx, l| {
+            let mut buf = Vec::with_capacity(2048);
+            get(idx, &mut buf);
+            c11_case(&buf, l);
+        });
+    }
     // iterator call histories: every sequence of next / nth / take-count calls up to a depth, then collect / count /
     // last, on the compound of every tile sequence of length 1..=3, against what plain next() calls give (which the
     // spaces above compare with the model)
